@@ -144,3 +144,99 @@ def check_regions(rep, regions, label, invariant="RaceFree"):
         bad.append((reg, find_conflict(reg, writes_only=(invariant == "Deterministic"))))
         regs = regs[kk:]
     return bad
+
+
+# ---------------------------------------------------------------------------------------------------------------------
+# Observed tables of single operators vs the INTENDED tables of spec/ZebraSchedule.tla
+
+def intended_tables(rep, shapes):
+    """TLC checks EpochDisjoint for the given shapes and prints the intended tables"""
+    nrs = sorted({s[0] for s in shapes})
+    nts = sorted({s[1] for s in shapes})
+    cfg = os.path.join(vlib.BUILD, "cfg", "zebra_emit.cfg")
+    os.makedirs(os.path.dirname(cfg), exist_ok=True)
+    open(cfg, "w").write('SPECIFICATION Spec\nCONSTANTS\n  NrSet = {%s}\n  NtSet = {%s}\n  Ops = {"residualGive", "smootherTake"}\n  EmitTables = TRUE\n'
+                         'INVARIANTS EpochDisjoint AllRadialOnce AllCirclesOnce Emit\n' % (",".join(map(str, nrs)), ",".join(map(str, nts))))
+    r = vlib.tlc("ZebraSchedule", cfg, heap="8g", tag="zebraemit", timeout=1500)
+    rep.add_tlc(r, "ZebraSchedule.tla intended tables for %d x %d sizes" % (len(nrs), len(nts)))
+    if r.rc != 0:
+        if r.rc == 12:
+            return None, "ZebraSchedule.tla: %s violated\n%s" % (r.violation, vlib.counterexample(r)[:1500])
+        raise vlib.HarnessError("ZebraSchedule failed:\n" + r.out[-2000:])
+    tabs = {}
+    for c in r.cases:
+        s = c["shape"]
+        tabs[(s["op"], s["nr"], s["nt"], s["nc"], bool(s["dir"]))] = c
+    return tabs, None
+
+
+def observe_ops(nr, nt, nc, dirbc, threads):
+    exe = os.path.join(vlib.build(["drv_omp"], "gcc"), "drv_omp")
+    rec = os.path.join(vlib.BUILD, "cases", "ops_%d_%d_%d_%d.rec" % (nr, nt, nc, dirbc))
+    rc, recs, out = vlib.run_driver(exe, ["ops", nr, nt, nc, dirbc, threads, rec], timeout=600, env={"OMP_NUM_THREADS": str(threads), "OMP_DYNAMIC": "false"})
+    if rc != 0:
+        return None, "ops recorder failed (rc=%s): %s" % (rc, out[-400:])
+    lines = [json.loads(l) for l in open(rec)]
+    hdr = lines[0]
+    N = hdr["n"]
+    arrays = hdr["arrays"]
+    node_of = hdr["node_of_index"]
+
+    def loc(cell):
+        for name, base in arrays.items():
+            if base <= cell < base + 2 * N:
+                return (name, node_of[(cell - base) // 2])
+        return None
+    ops, cur = {}, None
+    for l in lines[1:]:
+        if "mark" in l:
+            cur = l["mark"]
+            continue
+        ops.setdefault(cur, []).append(l)
+    out = {}
+    for op, its in ops.items():
+        loops = {}
+        own = {"residualGive": "ResidualGive/residualGive.cpp", "smootherTake": "SmootherTake/smootherSolver.cpp"}.get(op, "")
+        for it in its:
+            if own not in it["f"]:
+                continue      # helper regions (vector copies) are separate parallel regions
+            key = (it["f"], it["l"])
+            d = loops.setdefault(key, {"ep": it["ep"], "tasks": {}})
+            w = {loc(c) for c in it["w"]} - {None}
+            r = {loc(c) for c in it["r"]} - {None}
+            d["tasks"][it["i"]] = (w, r)
+        out[op] = [loops[k] for k in sorted(loops, key=lambda k: (k[0], k[1]))]
+    return out, None
+
+
+def contained(observed, intended):
+    """Observed [= Intended: same loops in the same order with the same iteration ids and epochs; observed footprints contained"""
+    il = [l for l in intended["loops"]]
+    # loops without iterations are invisible in the observation
+    il_nonempty = [l for l in il if l["tasks"]]
+    if len(observed) != len(il_nonempty):
+        return "observed %d work-sharing loops with iterations, the schedule has %d" % (len(observed), len(il_nonempty))
+    base_ep = None
+    for k, (ol, l) in enumerate(zip(observed, il_nonempty)):
+        ids_o, ids_i = sorted(ol["tasks"]), sorted(t["id"] for t in l["tasks"])
+        if ids_o != ids_i:
+            return "loop %d: iterations %s, schedule %s" % (k + 1, ids_o, ids_i)
+        if base_ep is None:
+            base_ep = ol["ep"] - l["epoch"]
+        if ol["ep"] - l["epoch"] != base_ep:
+            return "loop %d runs in barrier epoch %d, schedule says %d (a barrier is missing or added)" % (k + 1, ol["ep"] - base_ep, l["epoch"])
+        written_arrays = {a for t in l["tasks"] for (a, n) in map(tuple, t["w"])}
+        for t in l["tasks"]:
+            w, r = ol["tasks"][t["id"]]
+            iw = {tuple(x) for x in t["w"]}
+            ir = {tuple(x) for x in t["r"]} | iw
+            if not w <= iw:
+                return "loop %d iteration %d writes %s outside its intended footprint" % (k + 1, t["id"], sorted(w - iw)[:4])
+            rr = {x for x in r if x[0] in written_arrays_all(il)}
+            if not rr <= ir:
+                return "loop %d iteration %d reads %s outside its intended footprint" % (k + 1, t["id"], sorted(rr - ir)[:4])
+    return None
+
+
+def written_arrays_all(loops):
+    return {a for l in loops for t in l["tasks"] for (a, n) in map(tuple, t["w"])}
